@@ -85,7 +85,7 @@ def _c18():
         ("c18_pc_leaf_s0_k0", "leaf terminal, 0 siblings, empty key slice"),
     ]
     for h, d in pc:
-        obl.append(K("c18_path::" + h, unwind=10, classes="bitvec_small", timeout_s=900, mem_gb=16, memsafe=False,
+        obl.append(K("c18_path::" + h, unwind=10, classes="bitvec_small", timeout_s=900, mem_gb=10, memsafe=False,
                      allow_unsat=["out-of-scope query"] if "0 siblings" in d else [],
                      desc="verify + confirm_value + confirm_nonexistence never panic for any 32-byte query: " + d,
                      bounds="shape: " + d + "; every key/node/value byte symbolic; CBMC pointer checks off in quick tier "
@@ -184,7 +184,7 @@ def _c08():
                    "non-existence statements about S, for every lookup key and query key in the window",
                    SHAPE_BOUNDS % 4 + "adversarial proof: <= 3 siblings", F_PATH,
                    allow_unsat=["some proof verifies", "some in-scope query"],
-                   unwind=10, classes="func", timeout_s=1500, mem_gb=8, memsafe=False)
+                   unwind=10, classes="func", timeout_s=1800, mem_gb=6, limit_gb=26, memsafe=False)
 
 
 def _c05():
@@ -197,7 +197,7 @@ def _c05():
                    "equal membership in S for every window key below the terminal and are KeyOutOfScope for every other key",
                    SHAPE_BOUNDS % 4 + "terminal chosen by its index in the compressed trie", F_PATH,
                    allow_unsat=["present key queried", "out-of-scope key queried"],
-                   unwind=10, classes="func", timeout_s=1500, mem_gb=8, memsafe=False)
+                   unwind=10, classes="func", timeout_s=1500, mem_gb=5, memsafe=False)
 
 
 def _c02():
@@ -209,7 +209,7 @@ def _c02():
                  SHAPE_BOUNDS % 8, ["nomt_core::update::build_trie", "nomt_core::update::shared_bits",
                                     "nomt_core::trie_pos::TriePosition::up", "nomt_core::trie_pos::TriePosition::down",
                                     "nomt_core::trie_pos::TriePosition::subtrie_contains"],
-                 unwind=12, classes="func", timeout_s=1500, mem_gb=8, memsafe=False)
+                 unwind=12, classes="func", timeout_s=1500, mem_gb=5, memsafe=False)
     for o in bt:
         if o["tier"] == "thorough":
             o.update(mem_gb=20, timeout_s=7200)
@@ -219,10 +219,17 @@ def _c02():
             functions=["nomt_core::update::build_trie", "nomt_core::trie_pos::TriePosition::up",
                        "nomt_core::trie_pos::TriePosition::down", "nomt_core::trie_pos::TriePosition::subtrie_contains"],
             assumes=[ASSUME_HAVOC]) for n, t in [("s2d1", "thorough"), ("s3a", "thorough"), ("s3c", "thorough")]]
-    return bt + vc
+    sp = [K("c02::c02_splice_" + n, tier=("quick" if n == "n3_noleaf" else "thorough"), unwind=8, classes="default",
+            timeout_s=(1200 if n == "n3_noleaf" else 5400), mem_gb=(8 if n == "n3_noleaf" else 30), memsafe=False,
+            desc="leaf_ops_spliced(leaf, ops) is the sorted merge of the preserved leaf (unless overwritten/deleted by the batch) and "
+                 "the batch's puts [" + n + "]",
+            bounds="every sorted batch of n ops (puts/deletes in any mix, first key byte symbolic, other bytes zero, value hashes "
+                   "symbolic) and every leaf key",
+            functions=["nomt_core::update::leaf_ops_spliced"], assumes=[]) for n in ("n3_leaf", "n2_leaf", "n3_noleaf")]
+    return bt + vc + sp
 
 
-RB_NAMES = ["s4a_absent_del_two_puts", ("s3a_absent_del_put", "thorough"), "s1_insert", "s1_overwrite", "s1_delete", "s1_delete_absent", "s2d0_split",
+RB_NAMES = [("s4a_absent_del_two_puts", "thorough"), ("s3a_absent_del_put", "thorough"), "s1_insert", "s1_overwrite", "s1_delete", "s1_delete_absent", "s2d0_split",
             ("s2d1_split", "thorough"), ("s2d2_split", "thorough"),
             "s2d1_collapse", ("s2d2_collapse", "thorough"), ("s2d0_clear", "thorough"), ("s2d0_both", "thorough"), ("s3a_delete_left", "thorough"),
             ("s3a_insert_mid", "thorough"), ("s3b_collapse_left", "thorough"), ("s3c_delete_deep", "thorough"),
@@ -230,11 +237,15 @@ RB_NAMES = ["s4a_absent_del_two_puts", ("s3a_absent_del_put", "thorough"), "s1_i
 
 
 def _c06():
-    return _family("c06_rb_", "c06", RB_NAMES,
+    out_c06 = _family("c06_rb_", "c06", RB_NAMES,
                    "witness replay: honest paths of the before-trie verify against prev_root, confirm reads as the before-set "
                    "says, and verify_update(prev_root, paths+ops) == spec_root(after-set) built from scratch",
                    SHAPE_BOUNDS % 4 + "before/after/touched masks concrete per harness, new values symbolic",
-                   F_PATH + F_UPDATE, unwind=10, classes="func", timeout_s=1500, mem_gb=10, memsafe=False)
+                   F_PATH + F_UPDATE, unwind=10, classes="func", timeout_s=1500, mem_gb=6, memsafe=False)
+    for o in out_c06:
+        if "s4a" in o["harness"] or "s3" in o["harness"]:
+            o.update(mem_gb=30, timeout_s=7200)
+    return out_c06
 
 
 def _c07():
@@ -331,7 +342,7 @@ K_LEAF_ACC = _nomt_family("c01_leaf", ["c01_leaf_acc_n0", "c01_leaf_acc_n2_v3_4"
                           "leaf page built by LeafBuilder::push_cell: n(), key(i), value(i) (bytes + overflow flag), values_size agree "
                           "with the model", "n <= 3 cells, keys symbolic in 3 bytes (strictly increasing), value bytes and overflow "
                           "flags symbolic, value lengths concrete per harness, page content before the build arbitrary (4096 symbolic bytes)",
-                          F_LEAF, unwind=36, classes="default", timeout_s=900, mem_gb=12,
+                          F_LEAF, unwind=36, classes="default", timeout_s=900, mem_gb=6,
                           allow_unsat=["absent key looked up", "present key looked up", "layout checked"])
 K_BITOPS = _nomt_family("c01_bitops", ["c01_prefix_len_matches_reference", "c01_separator_len_matches_reference",
                                         "c01_separate_is_shortest_separator"],
@@ -343,7 +354,7 @@ K_LEAF_LAYOUT = _nomt_family("c01_leaf", ["c16_leaf_layout_n0", "c16_leaf_layout
                              "the built leaf page decodes by the documented layout alone (independent decoder): header n, cell pointer = "
                              "key ++ le16(offset | overflow<<15), offsets increasing from 4096-sum(len), last cell ends at 4096, pointer "
                              "area below the first cell", "n <= 3 cells, symbolic keys/values/flags, concrete lengths, arbitrary prior page content",
-                             F_LEAF, unwind=36, classes="default", timeout_s=900, mem_gb=12,
+                             F_LEAF, unwind=36, classes="default", timeout_s=900, mem_gb=6,
                              allow_unsat=["absent key looked up", "present key looked up", "accessors checked"])
 K_META = _nomt_family("c16_meta", ["c16_meta_roundtrip", "c16_meta_decode_encode", "c16_meta_create_new"],
                       "meta page: decode(encode(m)) == m on every field for arbitrary m and arbitrary surrounding bytes; documented field "
@@ -363,6 +374,15 @@ K_PAGEID = [K("c16_pageid::" + n, tier=t, unwind=22, classes="default", timeout_
                           ("c16_label_d9", "quick"), ("c16_label_d10", "quick"), ("c16_label_d11", "quick"), ("c16_label_d16", "thorough")]] +
             [(n, t, "labels are injective: encode(p) == encode(q) implies p == q", "every pair of page ids of the named depths, all limbs symbolic")
              for n, t in [("c16_inj_d2_d2", "quick"), ("c16_inj_d9_d10", "quick"), ("c16_inj_d10_d10", "quick"), ("c16_inj_d10_d11", "thorough")]]]
+
+K_MISC = _nomt_family("c16_misc", ["c16_pagediff_bytes_roundtrip", "c16_pagediff_set_and_join", "c16_overflow_cell_n1", "c16_overflow_cell_n3"],
+                      "small codecs: PageDiff::from_bytes accepts exactly bitmaps with the reserved bits clear and as_bytes inverts it, "
+                      "changed/count/set_changed/join are the documented bit operations; overflow cell decode(encode(size, hash, pages)) "
+                      "returns size, hash and page numbers in order, layout le64(size) ++ hash ++ le32(pn)*",
+                      "every 16-byte bitmap / slot index; every size <= 2^29, hash and page numbers (n = 1, 3)",
+                      ["nomt::page_diff::PageDiff::{from_bytes, as_bytes, changed, set_changed, count, join, set_cleared, cleared}",
+                       "nomt::beatree::ops::overflow::{encode_cell, decode_cell}"],
+                      unwind=40, classes="default", timeout_s=900, mem_gb=6)
 
 _KANI_EXPL = ("Bounded model checking (Kani 0.68 / CBMC 6.11 / cadical) of the real nomt-core code compiled from /repo; the "
               "oracle is the specification's trie written as data (shape.rs) and hashed through the same symbolic random oracle.")
@@ -415,7 +435,7 @@ PROPERTIES = {
                            "symbolically for every worker count 1..64 and every child.",
             "outside": ["every schedule", "warm-up, extend-range protocol, eviction, io_workers, hasher choice", "cross-configuration "
                         "equality of roots"]},
-    "C16": {"level": "model_checking", "obligations": K_META + K_LEAF_LAYOUT + K_PAGEID + [M_META_BYTE],
+    "C16": {"level": "model_checking", "obligations": K_META + K_LEAF_LAYOUT + K_PAGEID + K_MISC + [M_META_BYTE],
             "explanation": "Format kernels: each encoder's output decodes, by the documented layout alone, to what was encoded, for "
                            "arbitrary garbage in unwritten bytes (Kani/CBMC over the real encoders; z3 over MIR for tag bytes).",
             "outside": ["whole-image invariants: exactly one leaf per key across leaves, no page both free and used, reachability of "
